@@ -547,10 +547,13 @@ def exhaustive(ctx, env, A, symtab, depth, tag, states):
         ctx.stage('exhaustive-%s-model' % tag)
     for i in sorted(set(bad_spec) | set(bad_model))[:6]:
         prefix, _, _, fulls, pubs = parents[i]
-        want = coq_eval('c13ex', IMP_SPEC, [head + 'Eval vm_compute in (spec_succ_text A ST %s).\n' % coq_syms(prefix)])[0][0].split('@')[:-1]
-        mod = None
-        if ctx.model_runnable:
-            mod = coq_eval('c13ey', IMP_MODEL, [head + 'Eval vm_compute in (model_succ_text A ST %s).\n' % coq_syms(prefix)])[0][0].split('@')[:-1]
+        # texts are printed for a dozen symbols at a time (very long strings overflow coqc's printer)
+        def succ_texts(tag, imports, fn):
+            body = 'Definition A := %s.\n' % coq_alpha(A) + ''.join(
+                'Eval vm_compute in (%s A %s %s).\n' % (fn, coq_syms(part), coq_syms(prefix)) for part in chunks(symtab, 12))
+            return [t for s_ in coq_eval(tag, imports, [body])[0] for t in s_.split('@')[:-1]]
+        want = succ_texts('c13ex', IMP_SPEC, 'spec_succ_text')
+        mod = succ_texts('c13ey', IMP_MODEL, 'model_succ_text') if ctx.model_runnable else None
         n_rep = 0
         for j, y in enumerate(symtab):
             hist = prefix + [y]
